@@ -772,7 +772,10 @@ def reducer(p: Project):
     agg_ = p.get_class(BASE, "Aggregate")
     calls_helper = any(isinstance(c, ast.Call) and isinstance(c.func, ast.Name) and (c.func.id in siblings or (c.func.id.startswith("_") and isinstance(p.resolve(BASE, c.func.id), Func))) for c in ast.walk(inner)) \
         or any(isinstance(c, ast.Call) and isinstance(c.func, ast.Attribute) and isinstance(c.func.value, ast.Name) and c.func.value.id in ("cls", "self") and c.func.attr.startswith("_") and not c.func.attr.startswith("__") and agg_.own_func(c.func.attr) is not None for c in ast.walk(inner))
-    if calls_helper:
+    # conditional expressions in assigned values (`v = None if c else e.text or conv(e)`) are decisions the path rules
+    # have to see as branches
+    has_ifexp = any(isinstance(st_, (ast.Assign, ast.AnnAssign)) and isinstance(getattr(st_, "value", None), ast.IfExp) for st_ in ast.walk(inner))
+    if calls_helper or has_ifexp:
         cache = p.__dict__.setdefault("_flat_reducer", {})
         if "inner" not in cache:
             from . import canon
